@@ -351,6 +351,19 @@ class Effects:
                         "list", "sorted", "tuple", "set") and len(base.args) == 1:
                     base = base.args[0]
             if norm(base) == ctext and (tnames[0] == ktext):
+                # removing / popping the loop's element is total only once per iteration
+                if isinstance(node, ast.Call) and isinstance(node.func, ast.Attribute) and node.func.attr in ("remove", "pop"):
+                    head = cfg.node_of(loop)
+                    me = cfg.node_of(node)
+                    for other in ast.walk(ast.Module(body=loop.body, type_ignores=[])):
+                        if other is node or not (isinstance(other, ast.Call) and isinstance(other.func, ast.Attribute)
+                                                 and other.func.attr in ("remove", "pop") and norm(other.func.value) == ctext
+                                                 and other.args and norm(other.args[0]) == ktext):
+                            continue
+                        on = cfg.node_of(other)
+                        if head is not None and me is not None and on is not None and cfg.path_exists(
+                                on.id, me.id, avoid=[head.id], exceptional=False):
+                            return None  # a second removal of the same element in one iteration
                 return f"key iterates over `{norm(it)}`"
         return None
 
